@@ -31,6 +31,9 @@ pub struct Cfg {
     /// every instance of the backend (the original and each clone) needs this long to become ready
     warm_us: u64,
     calls: Vec<Call>,
+    /// (call index, from, to) in us after that call's arrival: the caller is not polled in between
+    /// (a busy executor, a sibling future hogging the task); whole milliseconds
+    stall: Option<(usize, u64, u64)>,
 }
 
 /// "no limit" timeouts: an unusual but valid configuration
@@ -61,7 +64,20 @@ pub fn gen(rng: &mut Prng) -> Cfg {
         calls.push(Call { arrive_us: rng.below(6) * 1000 * if rng.chance(0.5) { 1 } else { 5 }, t_us: t, lat, fail: rng.chance(0.3), pause: rng.chance(0.2) });
     }
     let warm_us = if rng.chance(0.12) { *rng.pick(&[2000u64, 7000, 30_000]) } else { 0 };
-    Cfg { cancel: rng.chance(0.5), per_request, fixed_t_us, cancel_first: rng.chance(0.5), warm_us, calls }
+    let stall = if warm_us == 0 && rng.chance(0.15) {
+        let i = rng.below(calls.len() as u64) as usize;
+        let t = calls[i].t_us;
+        if t >= HUGE[1] || t == 0 {
+            None
+        } else {
+            let from = *rng.pick(&[0u64, 1000, t / 2 / 1000 * 1000]);
+            let to = t + *rng.pick(&[1000u64, 5000, 20_000]);
+            Some((i, from, to.max(from + 1000)))
+        }
+    } else {
+        None
+    };
+    Cfg { cancel: rng.chance(0.5), per_request, fixed_t_us, cancel_first: rng.chance(0.5), warm_us, calls, stall }
 }
 
 fn map_err(e: &TimeLimiterError<PErr>) -> Outcome {
@@ -82,8 +98,19 @@ pub fn run(cfg: &Cfg, seed: u64) -> (Arc<World>, crate::sim::SimStats) {
                 for (i, c) in cfg.calls.iter().enumerate() {
                     let mut req = Req::new(i as u64 + 1, 0, vec![Step { lat: c.lat, out: if c.fail { Out::Err(1) } else { Out::Ok } }]);
                     req.payload = c.t_us;
-                    let a = sim.actor(req.id, caller(w.clone(), svc.clone(), req, c.pause, map_err));
+                    let stalled = cfg.stall.filter(|st| st.0 == i);
+                    let a = if stalled.is_some() {
+                        // the stalled caller is a plain client: its first poll is its arrival
+                        sim.actor(req.id, crate::actors::caller_linger(w.clone(), svc.clone(), req, false, crate::actors::Linger::No, map_err))
+                    } else {
+                        sim.actor(req.id, caller(w.clone(), svc.clone(), req, c.pause, map_err))
+                    };
                     sim.start_at(c.arrive_us, a);
+                    if let Some((_, from, to)) = stalled {
+                        sim.at(c.arrive_us + from, What::Suspend(a));
+                        sim.at(c.arrive_us + to, What::Resume(a));
+                        end = end.max(c.arrive_us + to + 5000);
+                    }
                     let l = match c.lat {
                         Lat::Us(n) => n,
                         _ => 0,
@@ -199,6 +226,38 @@ pub fn judge(cfg: &Cfg, log: &[Rec]) -> Report {
             _ => false,
         };
         let desc = format!("r{id}: first poll t={start}us, timeout {t}us, inner latency {:?} ({}), answered {} at t={rt}us", c.lat, if c.fail { "err" } else { "ok" }, out.short());
+        if let Some((_, from, to)) = cfg.stall.filter(|st| st.0 == i) {
+            // a caller that is not polled cannot notice anything before it is polled again
+            let (s_abs, e_abs) = (c.arrive_us + from, c.arrive_us + to);
+            let noticed = |x: u64| if x >= s_abs && x < e_abs { e_abs } else { x };
+            let desc = format!("{desc}; the caller was not polled from t={s_abs}us to t={e_abs}us");
+            match c.lat {
+                Lat::Us(l) if l < t => {
+                    // finished before its deadline: the inner result, whenever the caller looks
+                    if !(rt == noticed(start + l) && inner_matches(&out)) {
+                        rep.violate(format!("C06:{mode}:fast-call-wrong-answer-after-late-poll"), desc);
+                    }
+                }
+                Lat::Us(l) if start + l <= e_abs && deadline >= s_abs && deadline < e_abs => {
+                    // both the deadline and the completion passed while nobody looked: either answer
+                    if !(rt == e_abs && (inner_matches(&out) || is_timeout)) {
+                        rep.violate(format!("C06:{mode}:late-poll-wrong-answer"), desc);
+                    }
+                }
+                Lat::Us(l) if l == t => {
+                    if !(rt == noticed(deadline) && (inner_matches(&out) || is_timeout)) {
+                        rep.violate(format!("C06:{mode}:deadline-tie-wrong-answer"), desc);
+                    }
+                }
+                _ => {
+                    if !(rt == noticed(deadline) && is_timeout) {
+                        rep.violate(format!("C06:{mode}:slow-call-wrong-answer"), desc);
+                    }
+                }
+            }
+            rep.count("late_polled_calls", 1);
+            continue;
+        }
         match c.lat {
             Lat::Us(l) if l < t => {
                 if !(rt == start + l && inner_matches(&out)) {
